@@ -218,6 +218,19 @@ func (e *Engine) pkgStub(st *State, th *Thread, name string, fn *ssa.Function, a
 			return nil, true
 		}
 	}
+	if name == "github.com/irai/packet.Checksum" && e.cfg.Stubs["uf-checksum"] {
+		// Checksum as an uninterpreted function: arbitrary 16-bit result, argument bytes recorded
+		// (C15 decides Checksum == RFC 1071 separately)
+		sl := args[0].(SliceV)
+		n := e.concretize(st, sl.Len)
+		vals := make([]Val, n)
+		for i := uint64(0); i < n; i++ {
+			vals[i] = IntV{e.readByte(st, sl, tb.BV(i, 64))}
+		}
+		r := e.freshInt(st, "cksum", 16)
+		st.events = append(st.events, Event{Kind: "checksum", Vals: []Val{ArrV{vals}, IntV{r}}})
+		return IntV{r}, true
+	}
 	switch name {
 	case "github.com/irai/packet.FindManufacturer":
 		return StrV{Conc: true, S: ""}, true
